@@ -331,7 +331,7 @@ pub fn suite_c01() -> Suite {
         head_len: 48,
         op_len: 0,
         max_ops: 0,
-        quick_cases: 2_000_000,
+        quick_cases: 8_000_000,
         thorough_cases: 120_000_000,
         run: run_c01,
         direct: Some(direct_c01),
@@ -346,7 +346,7 @@ pub fn suite_c06() -> Suite {
         head_len: 56,
         op_len: 0,
         max_ops: 0,
-        quick_cases: 2_000_000,
+        quick_cases: 8_000_000,
         thorough_cases: 120_000_000,
         run: run_c06,
         direct: Some(direct_c06),
